@@ -99,6 +99,11 @@ def _collect_terms(exprs, ints, reals, limit=20000, pos=None):
                             ints.setdefault(key, a)
                             if pos is not None:
                                 pos.setdefault(key, set()).add((fname, ai))
+                        elif z3.is_real(a) and not _mentions_J(a, JID) and fname not in ('log10', 'ln', 'pow10', 'sqrt', 'powr'):
+                            key = a.sexpr()
+                            reals.setdefault(key, a)
+                            if pos is not None:
+                                pos.setdefault(key, set()).add((fname, ai))
             stack.extend(t.children())
 
 
@@ -154,18 +159,18 @@ def _forall_pattern(fa):
     _collect_terms(exprs, ints, reals, pos=pos)
     pats = []
     for p in probes:
-        if z3.is_real(p.t):
-            pats.append(None)
-            continue
         mine = set()
         pid = p.t.get_id()
-        for k, t in ints.items():
+        for k, t in list(ints.items()) + list(reals.items()):
             if k in pos and _mentions_J(t, pid):
                 if t.get_id() == pid:
                     mine |= pos[k]
                 else:
                     mine |= set(('~' + f, a) for f, a in pos[k])     # occurs inside a compound index
         pats.append(mine if mine else None)
+    extra = getattr(fa, 'extra_pos', None)
+    if extra:
+        pats = [((p or set()) | set(e)) if e else p for p, e in zip(pats, extra)]
     _PATTERN_CACHE[key] = (fa, pats)
     return pats
 
@@ -181,7 +186,11 @@ def _instantiate(foralls, ints, reals, done, out, budget, pos=None, cache=None):
         pools = []
         for r, pat in zip(fa.ranges, pats):
             if isinstance(r, str) and r == 'real':
-                pools.append(rcands)
+                exact = set(x for x in (pat or ()) if not x[0].startswith('~'))
+                if exact and pos is not None:
+                    pools.append([t for k, t in reals.items() if pos.get(k, set()) & exact])
+                else:
+                    pools.append([t for t in rcands if z3.is_const(t)])
                 continue
             if pat is None or pos is None:
                 pools.append([t for _, t in icands])
